@@ -7,7 +7,8 @@ exactly the loads carrying that instruction (same constant) after running the ba
 implementation; every analysed frame is entered (C03.R2), so every such load is seen;
 ``_ref_types`` equals the node classes whose visitors load a template at run time; in
 find_referenced_templates every branch for a non-constant template expression yields
-(a name or None).  Not decided: data-dependent lookups through getattr on the context object.
+(a name or None).  Also: the compiler never writes the symbol tables.  
+Not decided: data-dependent lookups through getattr on the context object.
 """
 
 from __future__ import annotations
